@@ -435,7 +435,8 @@ def gen_akn_tree(rng, depth=0, pool=None, maxdepth=5, ids=True):
         if e is not None and (not exempt or rng.random() < 0.05):
             attrs.append(['eId', e])
     if rng.random() < 0.1:
-        attrs.append(['name', rng.choice(['x', 'hcontainer'])])
+        # (a name is data: it must not take part in the id - values with blanks, names of exempt elements, nothing)
+        attrs.append(['name', rng.choice(['x', 'hcontainer', 'question time', 'heading', 'num', 'content', 'a b', '', 'intro'])])
     if ids and rng.random() < 0.12:
         # attributes that point at an eId (of this document or not): a rewrite must leave them alone
         target = rng.choice(pool) if pool and rng.random() < 0.7 else rng.choice(['sec_1', 'sec_2', 'chp_1', 'nowhere'])
